@@ -166,9 +166,19 @@ def equality_test(actual, expected, _exact_strings, _delta):
         return True
     # Two dataclasses
     elif is_dataclass(expected) and is_dataclass(actual):
-        return (expected.__name__ == actual.__name__ and
-                all(e.name == a.name and equality_test(e.type, a.type, _exact_strings, _delta)
-                    for e, a in zip(fields(expected), fields(actual))))
+        if isinstance(expected, type) and isinstance(actual, type):
+            return (expected.__name__ == actual.__name__ and
+                    all(e.name == a.name and equality_test(e.type, a.type, _exact_strings, _delta)
+                        for e, a in zip(fields(expected), fields(actual))))
+        # Two instances: the same kind of record with equal field values
+        if isinstance(expected, type) or isinstance(actual, type):
+            return False
+        expected_fields, actual_fields = fields(expected), fields(actual)
+        return (type(expected).__name__ == type(actual).__name__ and
+                len(expected_fields) == len(actual_fields) and
+                all(e.name == a.name and
+                    equality_test(getattr(actual, a.name), getattr(expected, e.name), _exact_strings, _delta)
+                    for e, a in zip(expected_fields, actual_fields)))
     # Else
     return False
 
